@@ -94,7 +94,7 @@ def run(ctx):
                         "get_lexer_for_filename is real Pygments, called on the concrete pool names only", "checksums are stubbed as a function of content (A-md5)"]
     ctx.outside += ["gitignore features outside the five classes (negation, **, character classes, escapes)", "trees outside the pool family", "symbolic links"]
     e2(ctx)
-    T = 300 if ctx.quick() else 1500
+    T = 300 if ctx.quick() else 600
     jobs = []
     combos = [(0, 0), (0, 1), (1, 0), (1, 2), (2, 0), (2, 3), (3, 1), (3, 4), (2, 5), (1, 5), (4, 0), (4, 2), (5, 0), (5, 1)] if ctx.quick() else [(c, r) for c in range(6) for r in range(6)]
     for c, r in combos:
